@@ -23,7 +23,12 @@ LEVEL_NOTE = ("C01/windows: merge argument form (list / tuple / generator) must 
               "object merged again contributes only its first max_num_updates slots) -- the theorem behind the known "
               "finding C01-window-merged-object-merged-again (witnesses: window_merge_nested_refuted, "
               "window_update_after_merge_refuted); the sequential groupings of this stream are compared with that "
-              "closed form.  WindowedBinaryAUROC has no lifetime value.")
+              "closed form.  WindowedBinaryAUROC has no lifetime value.  "
+              "REPAIR (fixes/window-merge-capacity.patch, model win_metric_cap, chosen per class by the witness "
+              "families/window.py merge_capacity_variant): Props/C01_window_capacity.v -- "
+              "window_merge_pools_any_tree_repaired, window_capacity_after_merge_repaired, "
+              "window_update_after_merge_repaired, window_lifetime_*_repaired; on a repaired tree this stream checks the "
+              "pooled window for sequential merges too, the capacity, and the ring of enlarged capacity after further updates.")
 
 
 def ring_slots(bs, N):
@@ -35,16 +40,32 @@ def ring_slots(bs, N):
     return [bs[max(k for k in range(n) if k % N == i)] for i in range(N)]
 
 
-def sequential_window(hist, N):
+def sequential_window(hist, N, repaired=False):
     """Coq: window_merged_again_contributes_firstN / window_merge_reads_whole_pool / window_value_any_merge_tree.
     A.merge([B1]); A.merge([B2]); ...: what compute() reads after the last merge (the whole pool), the target
-    keeping only the first N slots of its pool from one merge to the next."""
+    keeping only the first N slots of its pool from one merge to the next.
+    repaired (fixes/window-merge-capacity.patch; Coq: window_merge_pools_any_tree_repaired): nothing is truncated."""
     filled = ring_slots(hist[0], N)
     read = filled
     for bs in hist[1:]:
         read = filled + ring_slots(bs, N)
-        filled = read[:N]
+        filled = read if repaired else read[:N]
     return read
+
+
+def pool_repaired(hist, N, flat):
+    """Repaired merge_state (Coq: window_update_after_merge_repaired): the pooled slots in buffer order (None = an
+    unfilled zero slot taken over from a merged object) and the capacity K after the merge(s)."""
+    if flat:
+        return [b for bs in hist for b in ring_slots(bs, N)], N * len(hist)
+    buf, tot, cap = ring_slots(hist[0], N), len(hist[0]), N
+    parts = list(buf)
+    for bs in hist[1:]:
+        buf = buf + [None] * (cap - len(buf))
+        parts = buf[:min(tot, cap)] + ring_slots(bs, N)
+        cap, tot = cap + N, tot + len(bs)
+        buf = parts
+    return parts, cap
 
 
 def lifetime_stream(ctx):
@@ -57,7 +78,8 @@ def lifetime_stream(ctx):
         if e.granularity == "sample":
             continue
         cfgs = [c for c in e.configs(ctx.rng, ctx.quick) if c.get("enable_lifetime")]
-        ok, ok_seq, ok_tot, seen = True, True, True, set()
+        ok, ok_seq, ok_tot, ok_cap, ok_ring, seen = True, True, True, True, True, set()
+        repaired = e.model.endswith("_cap")        # the tree under test has the repaired merge_state (witness run)
         for h in range(ctx.n(40, 240)):
             cfg = cfgs[h % len(cfgs)]
             N = e.window(cfg)
@@ -87,8 +109,16 @@ def lifetime_stream(ctx):
                 continue
             got = winlib.safe(lambda: e.out_val(tgt.compute()))
             want = [ref_value(e, cfg, allb), ref_value(e, cfg, pooled)]
-            post = [e.gen_batch(ctx.rng, cfg, 2) for _ in range(ctx.rng.choice([0, 1, 2]))]
+            post = [e.gen_batch(ctx.rng, cfg, 2) for _ in range(ctx.rng.choice([0, 1, 2] + ([N, N * nsh, N * nsh + 1] if repaired else [])))]
             d = None
+            # capacity: kept by the code as it is, N * number of shards when repaired (window_capacity_after_merge_repaired)
+            capw = N * nsh if repaired else N
+            if int(tgt.max_num_updates) != capw and ok_cap:
+                ok_cap = False
+                ctx.violation("failing-input", e.name,
+                              {"check": "max_num_updates after merge", "class": e.name, "cfg": cfg, "shards": hist,
+                               "grouping": "flat" if flat else "sequential", "observed": int(tgt.max_num_updates),
+                               "expected": capw, "broken": f"prop:capacity-after-merge:{e.name}"})
             # window_total_updates_any_merge_tree
             if int(tgt.total_updates) != len(allb) and ok_tot:
                 ok_tot = False
@@ -98,7 +128,7 @@ def lifetime_stream(ctx):
                                "expected": len(allb), "broken": f"prop:total-updates-after-merge:{e.name}"})
             # window_sequential_merge_window / window_value_any_merge_tree: the closed form of the windowed value
             if not flat:
-                pred = sequential_window(hist, N)
+                pred = sequential_window(hist, N, repaired)
                 s.count("sequential:" + ("window-lost" if len(pred) < len(pooled) else "nothing-lost"))
                 w3 = ref_value(e, cfg, pred)
                 if winlib.finite(w3) and isinstance(got, list) and len(got) == 2:
@@ -125,6 +155,21 @@ def lifetime_stream(ctx):
                     d = close(w2, got2[0], e.tol)
                     if d:
                         d = f"lifetime value after the merge and {len(post)} more update(s): {d}"
+                # window_update_after_merge_repaired: a ring buffer of the enlarged capacity K whose history is the
+                # pooled slots (buffer order) followed by the new updates
+                if repaired and not d and isinstance(got2, list) and len(got2) == 2:
+                    parts, K = pool_repaired(hist, N, flat)
+                    s.count("repaired:post>=capacity" if len(post) >= K else "repaired:post<capacity")
+                    w4 = ref_value(e, cfg, [b for b in (parts + post)[-K:] if b is not None])
+                    if winlib.finite(w4):
+                        d4 = close(w4, got2[1], e.tol)
+                        if d4 and ok_ring:
+                            ok_ring = False
+                            ctx.violation("failing-input", e.name,
+                                          {"check": "windowed value after merge + updates vs a ring buffer of the enlarged capacity",
+                                           "class": e.name, "cfg": cfg, "shards": hist, "post": post, "capacity": K,
+                                           "grouping": "flat" if flat else "sequential", "observed": d4,
+                                           "broken": f"prop:ring-of-enlarged-capacity-after-merge:{e.name}"})
             trig = "merged-object-merged-again" if (d and not flat and d.startswith("pooled window")) else None
             if d and (e.name, trig) not in seen:
                 seen.add((e.name, trig))
@@ -139,6 +184,11 @@ def lifetime_stream(ctx):
         ctx.oblige(f"prop:lifetime-after-merge:{e.name}", ok, detail="" if ok else "see failing inputs")
         ctx.oblige(f"prop:total-updates-after-merge:{e.name}", ok_tot, detail="" if ok_tot else "see failing inputs")
         ctx.oblige(f"prop:sequential-merge-window-closed-form:{e.name}", ok_seq, detail="" if ok_seq else "see failing inputs")
+        ctx.oblige(f"prop:capacity-after-merge:{e.name}", ok_cap, detail="" if ok_cap else "see failing inputs")
+        if repaired:
+            ctx.oblige(f"prop:ring-of-enlarged-capacity-after-merge:{e.name}", ok_ring, detail="" if ok_ring else "see failing inputs")
+            ctx.notes.append(f"{e.name}: merge_state sets max_num_updates to the pooled capacity (model {e.model}): "
+                             "fixes/window-merge-capacity.patch is in the tree under test; Props/C01_window_capacity.v applies")
 
 
 def run(ctx):
